@@ -230,7 +230,8 @@ namespace sqf::runtime
         sqf::runtime::instruction_set::iterator peek() const { bool flag; return peek(flag); }
         sqf::runtime::instruction_set::iterator peek(bool& success) const
         {
-            auto pos = m_position >= m_instruction_set.size() ? m_instruction_set.size() - 1 : m_position + 1;
+            // a frame that was not started yet has its first instruction next, a finished frame has none
+            auto pos = m_position == position_invalid ? 0 : m_position >= m_instruction_set.size() ? m_instruction_set.size() : m_position + 1;
             auto it = m_instruction_set.begin() + pos;
             success = it != m_instruction_set.end();
             return it;
